@@ -511,5 +511,258 @@ theorem itemB_ok (ok : CtxOK c) (hfb : FmBound c.nT fm) (mok : MachineOK c fm m)
   simp only [Bool.and_eq_true]
   exact ⟨⟨⟨⟨hA, hB⟩, hC⟩, hD⟩, hE⟩
 
+/-! ### the per-transition and per-cell checks -/
+
+theorem demand_cases {s : Nat} {it : Item} {col : Nat} {A : Action} (h : Table.demand c m s it = some (col, A)) :
+    (it.rule = c.numRules ∧ it.dot ≠ 0 ∧ col = c.nT ∧ A = .accept) ∨
+    (∃ r, it.rule ≠ c.numRules ∧ c.g.rules[it.rule]? = some r ∧ it.dot = r.rhs.length ∧ col = it.la ∧
+      A = .reduce it.rule) ∨
+    (∃ r t0 dest, it.rule ≠ c.numRules ∧ c.g.rules[it.rule]? = some r ∧ r.rhs[it.dot]? = some (.t t0) ∧
+      getShiftDest m s t0 = some dest ∧ col = t0 ∧ A = .shift dest) := by
+  unfold Table.demand at h
+  split at h
+  · rename_i he
+    split at h
+    · cases h
+    · rename_i hd
+      cases h
+      exact Or.inl ⟨he, hd, rfl, rfl⟩
+  · rename_i hne
+    split at h
+    · cases h
+    · rename_i r hr
+      split at h
+      · rename_i hd
+        cases h
+        exact Or.inr (Or.inl ⟨r, hne, hr, hd, rfl, rfl⟩)
+      · cases hs : r.rhs[it.dot]? with
+        | none => rw [hs] at h; cases h
+        | some X =>
+          rw [hs] at h
+          cases X with
+          | n b => cases h
+          | t t0 =>
+            simp only at h
+            cases hg : getShiftDest m s t0 with
+            | none => rw [hg] at h; cases h
+            | some dest =>
+              rw [hg] at h
+              simp only [Option.map_some, Option.some.injEq, Prod.mk.injEq] at h
+              exact Or.inr (Or.inr ⟨r, t0, dest, hne, hr, hs, hg, h.1.symm, h.2.symm⟩)
+
+theorem shiftDest_transition {s a dest : Nat} (h : getShiftDest m s a = some dest) :
+    (⟨s, dest, .t a⟩ : Transition) ∈ m.transitions := by
+  unfold getShiftDest at h
+  cases hf : m.transitions.find? (fun tr => tr.frm == s && tr.sym == Sym.t a) with
+  | none => rw [hf] at h; cases h
+  | some tr =>
+    rw [hf] at h
+    simp only [Option.map_some, Option.some.injEq] at h
+    have hp := List.find?_some hf
+    have hmem := List.mem_of_find?_eq_some hf
+    simp only [Bool.and_eq_true, beq_iff_eq] at hp
+    have : tr = ⟨s, dest, .t a⟩ := by
+      cases tr; simp only at hp h; rw [hp.1, hp.2, h]
+    rw [← this]; exact hmem
+
+/-- a transition of the validator's view is a transition of the machine -/
+theorem delta_transition (ok : CtxOK c) (cells : Cells c m t) {s t' : Nat} {X : Sym Nat Nat}
+    (h : (certOf c fm m t).delta s X = some t') : s < m.states.length ∧ (⟨s, t', X⟩ : Transition) ∈ m.transitions := by
+  cases X with
+  | t a =>
+    simp only [Cert.delta, act_some_certOf] at h
+    by_cases hg : a < c.nT ∧ s < m.states.length
+    · rw [if_pos hg] at h
+      refine ⟨hg.2, ?_⟩
+      cases hact : t.action s a with
+      | shift d =>
+        rw [hact] at h
+        simp only [Option.some.injEq] at h
+        subst h
+        obtain ⟨st, it0, hst, hit0, hd⟩ := cells.justified s a (Nat.le_of_lt hg.1) (by rw [hact]; intro e; cases e)
+        rw [hact] at hd
+        rcases demand_cases hd with ⟨_, _, _, e⟩ | ⟨_, _, _, _, _, e⟩ | ⟨r, t0, dest, _, _, _, hg', e1, e2⟩
+        · cases e
+        · cases e
+        · cases e2
+          subst e1
+          exact shiftDest_transition hg'
+      | reduce j => rw [hact] at h; cases h
+      | accept => rw [hact] at h; cases h
+      | err => rw [hact] at h; cases h
+    · rw [if_neg hg] at h; cases h
+  | n b =>
+    simp only [Cert.delta, goto_certOf] at h
+    split at h
+    · rename_i hg
+      exact ⟨hg.2, cells.gotoJust s b t' hg.1 h⟩
+    · cases h
+
+theorem transB_ok (ok : CtxOK c) (mok : MachineOK c fm m) (cells : Cells c m t) (s : Nat) (X : Sym Nat Nat) :
+    Valid.transB c.g (certOf c fm m t) s X = true := by
+  unfold Valid.transB
+  cases hdelta : (certOf c fm m t).delta s X with
+  | none => rfl
+  | some t' =>
+    simp only
+    obtain ⟨hs, htr⟩ := delta_transition ok cells hdelta
+    obtain ⟨_, ht', hne, hk⟩ := mok.trans _ htr
+    simp only at ht' hne hk
+    rw [Bool.and_eq_true]
+    constructor
+    · show (t' != m.start) = true
+      simpa using hne
+    · rw [List.all_eq_true]
+      intro it hit
+      obtain ⟨y, hy, rfl⟩ := (items_certOf t' it).mp hit
+      rw [decode_dot]
+      cases hyd : y.dot with
+      | zero => rfl
+      | succ d =>
+        simp only
+        have hwfy := (mok.good t' ht').wf y hy
+        rw [rhsOf_decode hwfy.1]
+        simp only
+        obtain ⟨x, hx, r1, r2, r3⟩ := hk y hy (by omega)
+        rw [Bool.and_eq_true]
+        constructor
+        · unfold symRightOfDot at r3
+          rw [r1] at r3
+          have : x.dot = d := by omega
+          rw [this] at r3
+          rw [r3]; simp
+        · rw [Valid.hasCore_iff]
+          refine ⟨decodeLa c x.la, ?_⟩
+          have := mem_items_of (c := c) (fm := fm) (t := t) s hx
+          have hd : decodeItem c x = ⟨(decodeItem c y).rule, d, decodeLa c x.la⟩ := by
+            unfold decodeItem
+            simp only
+            rw [r1]
+            have : x.dot = d := by omega
+            rw [this]
+            rfl
+          rw [← hd]; exact this
+
+theorem cellB_ok (ok : CtxOK c) (mok : MachineOK c fm m) (cells : Cells c m t) (s : Nat) (a : Option Nat) :
+    Valid.cellB c.g (certOf c fm m t) s a = true := by
+  unfold Valid.cellB
+  -- the cell, as a table cell
+  have key : ∀ A, (certOf c fm m t).act s a = A → A ≠ .err →
+      s < m.states.length ∧ ∃ it0, it0 ∈ m.states.getD s [] ∧ Table.demand c m s it0 = some (codeLa c a, A) ∧
+        (∀ a', a = some a' → a' < c.nT) := by
+    intro A hA hne
+    cases a with
+    | none =>
+      rw [act_none_certOf] at hA
+      split at hA
+      · rename_i hs
+        obtain ⟨st, it0, hst, hit0, hd⟩ := cells.justified s c.nT (Nat.le_refl _) (by rw [hA]; exact hne)
+        rw [states_get hs] at hst
+        cases hst
+        exact ⟨hs, it0, hit0, by rw [hA] at hd; exact hd, by intro a' e; cases e⟩
+      · exact absurd hA.symm hne
+    | some a' =>
+      rw [act_some_certOf] at hA
+      split at hA
+      · rename_i hg
+        obtain ⟨st, it0, hst, hit0, hd⟩ := cells.justified s a' (Nat.le_of_lt hg.1) (by rw [hA]; exact hne)
+        rw [states_get hg.2] at hst
+        cases hst
+        exact ⟨hg.2, it0, hit0, by rw [hA] at hd; exact hd, by intro a'' e; cases e; exact hg.1⟩
+      · exact absurd hA.symm hne
+  cases hA : (certOf c fm m t).act s a with
+  | err => rfl
+  | shift d =>
+    simp only
+    obtain ⟨hs, it0, hit0, hd, hb⟩ := key _ hA (by intro e; cases e)
+    rcases demand_cases hd with ⟨_, _, _, e⟩ | ⟨_, _, _, _, _, e⟩ | ⟨r, t0, dest, _, hr, hsym, _, e1, _⟩
+    · cases e
+    · cases e
+    · cases a with
+      | some _ => rfl
+      | none =>
+        exfalso
+        have : t0 < c.nT := ok.terms r (List.mem_of_getElem? hr) t0 (List.mem_of_getElem? hsym)
+        simp only [codeLa] at e1
+        omega
+  | reduce j =>
+    simp only
+    obtain ⟨hs, it0, hit0, hd, hb⟩ := key _ hA (by intro e; cases e)
+    rcases demand_cases hd with ⟨_, _, _, e⟩ | ⟨r, hne, hr, hdot, _, e⟩ | ⟨_, _, _, _, _, _, _, _, e⟩
+    · cases e
+    · cases e
+      rw [hr]
+      simp only
+      rw [Valid.hasCore_iff]
+      refine ⟨decodeLa c it0.la, ?_⟩
+      have := mem_items_of (c := c) (fm := fm) (t := t) s hit0
+      have hdec : decodeItem c it0 = ⟨some it0.rule, r.rhs.length, decodeLa c it0.la⟩ := by
+        unfold decodeItem
+        rw [if_neg hne, hdot]
+        rfl
+      rw [← hdec]; exact this
+    · cases e
+  | accept =>
+    simp only
+    obtain ⟨hs, it0, hit0, hd, hb⟩ := key _ hA (by intro e; cases e)
+    rcases demand_cases hd with ⟨he, hd0, e1, _⟩ | ⟨_, _, _, _, _, e⟩ | ⟨_, _, _, _, _, _, _, _, e⟩
+    · rw [Bool.and_eq_true]
+      constructor
+      · cases a with
+        | none => rfl
+        | some a' =>
+          exfalso
+          have := hb a' rfl
+          simp only [codeLa] at e1
+          omega
+      · rw [Valid.hasCore_iff]
+        refine ⟨decodeLa c it0.la, ?_⟩
+        have := mem_items_of (c := c) (fm := fm) (t := t) s hit0
+        have hwf := (mok.good s hs).wf it0 hit0
+        have hdot : it0.dot = 1 := by
+          have h2 := hwf.2.1
+          unfold rhsOf at h2
+          rw [if_pos he] at h2
+          simp at h2
+          omega
+        have hdec : decodeItem c it0 = ⟨none, 1, decodeLa c it0.la⟩ := by
+          unfold decodeItem
+          rw [if_pos he, hdot]
+          rfl
+        rw [← hdec]; exact this
+    · cases e
+    · cases e
+
+/-! ### the theorem -/
+
+theorem checked_of_generator (ok : CtxOK c) (hfb : FmBound c.nT fm) (hfc : Valid.firstClosedB c.g (toTbl fm) = true)
+    (mok : MachineOK c fm m) (cells : Cells c m t) : Valid.Checked c.g c.nN (certOf c fm m t) where
+  alen := by simp [certOf]
+  glen := by simp [certOf]
+  grows := by
+    intro row hrow
+    simp only [certOf, List.mem_map, List.mem_range] at hrow
+    obtain ⟨s, _, rfl⟩ := hrow
+    simp
+  first := hfc
+  start := by
+    have := mem_items_of (c := c) (fm := fm) (t := t) m.start mok.startItem
+    have hdec : decodeItem c (startItem c) = ⟨none, 0, none⟩ := by
+      unfold decodeItem startItem
+      simp
+    rw [hdec] at this
+    exact this
+  item := by
+    intro s it hit
+    obtain ⟨x, hx, rfl⟩ := (items_certOf s it).mp hit
+    have hs : s < m.states.length := by
+      rcases Nat.lt_or_ge s m.states.length with h | h
+      · exact h
+      · rw [List.getD_eq_getElem?_getD, List.getElem?_eq_none h] at hx
+        cases hx
+    exact itemB_ok ok hfb mok cells hs hx
+  trans := fun s X _ _ => transB_ok ok mok cells s X
+  cell := fun s a _ _ => cellB_ok ok mok cells s a
+
 end Assemble
 end KikiVerif
